@@ -5,13 +5,13 @@
 patch=$(readlink -f $1); id=$2; tier=${3:-quick}
 name=$(echo $patch | sed 's|/patch.diff$||; s|.*/seed/out/||; s|.*/seeded/||; s|/|_|g')
 wt=/tmp/ts/wt_${name}_$id; out=/tmp/ts/out_${name}_$id
-mkdir -p /tmp/ts; git -C /repo worktree remove --force $wt 2>/dev/null; rm -rf $wt $out
-git -C /repo worktree add -q --detach $wt HEAD || exit 2
+mkdir -p /tmp/ts; flock /tmp/.verif_wt.lock git -C /repo worktree remove --force $wt 2>/dev/null; rm -rf $wt $out
+flock /tmp/.verif_wt.lock git -C /repo worktree add -q --detach $wt HEAD || exit 2
 if ! git -C $wt apply $patch 2>/dev/null; then
   if ! git -C $wt apply --3way $patch >/dev/null 2>&1; then echo "$name $id: PATCH DOES NOT APPLY"; git -C /repo worktree remove --force $wt; exit 3; fi
 fi
 mkdir -p $out/evidence $out/replays
 cd /verif && VERIF_REPO=$wt VERIF_OUT=$out timeout 3000 ./check $id --tier $tier > /tmp/ts/$name.$id.log 2>&1; rc=$?
-git -C /repo worktree remove --force $wt; rm -rf $wt
+flock /tmp/.verif_wt.lock git -C /repo worktree remove --force $wt; rm -rf $wt
 echo "$name: check $id tier=$tier exit=$rc violations=$(grep -c '^VIOLATION' /tmp/ts/$name.$id.log)"
 grep -E "^VIOLATION|HARNESS|Traceback" /tmp/ts/$name.$id.log | sed 's/replay=[^ ]* //' | cut -c1-220 | head -6
